@@ -463,7 +463,11 @@ class PatGen:
                 self.mpred(txt, "(len eq %d)" % len(v[1].encode("utf-8")))
             else:
                 w = self.bound(v, t, "ge")
-                txt = "|x| x.clone() >= %s" % self.lit(w, t)
+                # force_shape == "typed": the parameter carries a type annotation (`|x: &i32| ..`), a bare `:` inside the pattern
+                typed = self.force_shape == "typed"
+                if typed:
+                    self.force_shape = None
+                txt = ("|x: &%s| x.clone() >= %s" % (self.g.rust_type(t), self.lit(w, t))) if typed else "|x| x.clone() >= %s" % self.lit(w, t)
                 self.mpred(txt, "(cmp ge %s)" % sexp(w))
             return txt
         if f == "regex":
